@@ -39,6 +39,13 @@ func (f fileNameKeyerFunc) KeyFromFileName(name string) (string, error) { return
 // 48 is chosen so that 5 fragments fit within 240 chars, well under common filesystem limits.
 const fragmentSize = 48
 
+// dirMarker ends every directory component of a fragmented name. It is not
+// part of the base64url alphabet, so a directory can never have the name of a
+// file (an unfragmented key, or the last fragment of a shorter key): without
+// it a key whose encoding is exactly one fragment long and a longer key
+// starting with it could not be stored side by side.
+const dirMarker = "."
+
 // fragmentingFileNamer returns a fileNamer that fragments long keys into directory structures.
 // This helps avoid filesystem limits on filename lengths.
 func fragmentingFileNamer() fileNamer {
@@ -52,10 +59,15 @@ func fragmentFileName(key string) string {
 	}
 
 	// Fragment the encoded string
+	const chunk = fragmentSize - len(dirMarker)
 	var parts []string
-	for i := 0; i < len(encoded); i += fragmentSize {
-		end := min(i+fragmentSize, len(encoded))
-		parts = append(parts, encoded[i:end])
+	for i := 0; i < len(encoded); i += chunk {
+		end := min(i+chunk, len(encoded))
+		if end < len(encoded) {
+			parts = append(parts, encoded[i:end]+dirMarker)
+		} else {
+			parts = append(parts, encoded[i:end])
+		}
 	}
 	return filepath.Join(parts...)
 }
@@ -65,6 +77,8 @@ func fragmentingFileNameKeyer() fileNameKeyer {
 }
 
 var filepathSeparatorReplacer = strings.NewReplacer(
+	dirMarker+string(filepath.Separator),
+	"",
 	string(filepath.Separator),
 	"",
 )
